@@ -98,6 +98,23 @@ class IterPlain(tud.IterableDataset):
         return iter(items)
 
 
+class IterSlow(IterPlain):
+    """IterPlain whose worker `w` sleeps `secs` before yielding its item number `pos` (a slow stretch while other workers have already retired)"""
+
+    def __init__(self, sizes, slow):
+        super().__init__(sizes)
+        self.slow = slow
+
+    def __iter__(self):
+        import time
+        wi = tud.get_worker_info()
+        w, pos, secs = self.slow
+        for i, x in enumerate(super().__iter__()):
+            if wi is not None and wi.id == w and i == pos:
+                time.sleep(secs)
+            yield x
+
+
 class IterStateful(tud.IterableDataset):
     """dataset-level state {'i': position}; README style: the position is rewound when __iter__ runs to its end (rewind=True)"""
 
@@ -346,6 +363,8 @@ class Schedule:
 def make_dataset(cfg):
     if cfg["kind"] == "map":
         return MapDS(cfg["n"], cfg.get("bad", ()))
+    if cfg.get("slow"):
+        return IterSlow(cfg["sizes"], tuple(cfg["slow"]))
     if cfg.get("iterstate"):
         return IterIterStateful(cfg["sizes"])
     if cfg.get("stateful"):
